@@ -256,6 +256,13 @@ func (e *Environment) Get(name string) (Object, bool) {
 	}
 	obj, ok := e.store[name]
 	if ok {
+		if r, isRef := obj.(Reference); isRef {
+			if _, alive := r.RefEnv.store[r.Name]; !alive {
+				// The variable this reference points to was deleted: forget the stale reference and look again.
+				delete(e.store, name)
+				return e.Get(name)
+			}
+		}
 		// using references to non constant (extensions are constants) implies uncacheable.
 		if r, ok := obj.(Reference); ok && (r.RefEnv.depth != 0 || (!Constant(r.Name) && r.ObjValue().Type() != FUNC)) {
 			e.getMiss++
